@@ -27,6 +27,7 @@ def new_sim(rng):
     sim.move_to_com()
     sim.integrator = rng.choice(INTEGRATORS)
     sim.dt = 0.01 * (1 + rng.random())
+    sim.t = rng.choice([0.0, 1.5, -2.25, 100.0])      # the first snapshot need not be at t = 0
     note(["new_sim", sim.integrator, sim.N])
     return sim
 
@@ -117,6 +118,7 @@ def history(rng, fn, nsnap, reload_all):
     events = []
     ghosts = []
     oplog = []
+    tlist = []
     for k in range(nsnap):
         if k > 0:
             for _ in range(rng.randrange(0, 4)):
@@ -133,6 +135,7 @@ def history(rng, fn, nsnap, reload_all):
                 events.append({"k": k, "save_error": str(e)[:100]})
                 break
         ghosts.append(recs(lf, intern))
+        tlist.append(t_live)
         buf = open(fn, "rb").read()
         blobs = P.parse_archive(buf)
         ev = {"k": k, "ops": oplog, "cur": ghosts[k], "nblobs_file": len([b for b in blobs if b["complete"] and b["trailer"] is not None]),
@@ -149,7 +152,9 @@ def history(rng, fn, nsnap, reload_all):
             try:
                 sa = rebound.Simulationarchive(fn)
                 ev["nblobs"] = len(sa)
-                ev["t_ok"] = (len(sa) == k + 1 and sa[k].t == t_live)
+                # count, the time of the loaded snapshot, and the archive's index of per-snapshot times
+                ev["t_ok"] = (len(sa) == k + 1 and sa[k].t == t_live and all(sa.t[j] == tlist[j] for j in range(len(sa)))
+                              and sa.tmin == min(tlist) and sa.tmax == max(tlist))
                 which = range(k + 1) if reload_all else sorted({k, rng.randrange(k + 1)})
                 for j in which:
                     s2 = sa[j]
